@@ -165,7 +165,11 @@ pub fn run_stats_rt(
     if !fatal {
         let w = itsgen::walker::walk(&a.input);
         if let Some(last) = w.pkts.last() {
-            if last.complete {
+            // only when the reader gets to the end of the input: a framing failure before that (cut
+            // packet, offset-to-next out of range) stops the read and nothing appended is reached
+            // (a memory size below the header size makes the payload length meaningless: same effect)
+            let framed = w.end == itsgen::walker::WalkEnd::Clean && w.pkts.iter().all(|p| p.rdh.memory_size >= 64);
+            if last.complete && framed {
                 let mut c = bb.clone();
                 let pkt = a.input[last.off..].to_vec();
                 c.input.extend_from_slice(&pkt);
